@@ -7,7 +7,7 @@ HERE = os.path.dirname(os.path.abspath(__file__))
 CHECKS = {
  "C03": dict(level="exploration", ref="DESIGN.md §5 C03",
    technique="deviation-bounded exhaustive enumeration of written files, each decoded by an independent reference decoder (differential / translation-style oracle)",
-   text="Every object of the C01/C02 enumerations (project fields, 146 names, pattern lists and note cells, every module type x every single deviation through BOTH writers, linked type pairs; thorough: deviation pairs) and the MetaModule/Sampler objects of C15/C16 is written by rv and decoded by rvref.codec, a strict grammar-driven decoder written only from the format documentation and the YAML by a separate author: the stream must parse completely, no structural rule may be violated (SNAM 32 bytes, PDTA = lines x tracks x 8, one CVAL per attached controller, 8 CMID bytes per value, CHNM < CHNK, options record covers the highest byte, 400-byte sampler record, 44-byte sample meta, envelope size, PEND/SEND closing, header order) and the decoded content must equal snapshot(object).",
+   text="Every object of the C01/C02 enumerations (project fields, 146 names, pattern lists and note cells, every module type x every single deviation through BOTH writers, linked type pairs, every pair of the reduced boundary menu; thorough: all deviation pairs) and the MetaModule/Sampler objects of C15/C16 is written by rv (and written a second time after in-place edits) and decoded by rvref.codec, a strict grammar-driven decoder written only from the format documentation and the YAML by a separate author: the stream must parse completely, no structural rule may be violated (SNAM 32 bytes, PDTA = lines x tracks x 8, one CVAL per attached controller, 8 CMID bytes per value, CHNM < CHNK, options record covers the highest byte, 400-byte sampler record, 44-byte sample meta, envelope size, PEND/SEND closing, header order) and the decoded content must equal snapshot(object).",
    note="Trusted base: rvref.codec/spec (independent of rv; 52/52 fixtures decode completely). Layout facts the docs do not state (SFGS bit positions, SLnK placement) come from fixtures/CHANGELOG and are listed in rvref/SHAPE.md; a symmetric rv error there is out of reach."),
  "C04": dict(level="exploration", ref="DESIGN.md §5 C04",
    technique="exhaustive enumeration of reference-encoded files and of every structure-preserving edit of every file, against an independent decoder",
@@ -63,7 +63,7 @@ CHECKS = {
    note="Trusted: rvmc.snapshot lists every serialised public attribute; names compare up to the documented 32-byte prefix; sunvox_version (writer version) is not varied. Bounded as stated; k=2 only for module-type pairs."),
  "C02": dict(level="exploration", ref="DESIGN.md §5 C02",
    technique="deviation-bounded exhaustive input enumeration (k=1 quick, k=2 thorough) on the real writers/readers",
-   text="For each of the 42 non-Output types the default module and every single deviation (every controller x boundary alphabet, every enum member, unit-dependent ranges under every unit, every option value, common fields at documented corners, MIDI bindings, every array element spike and fill pattern) goes through Synth write/read, Module.clone() and Project write/read; snapshots must be equal per context and across contexts; thorough adds every compatible pair of deviations within a type. Synth(None) must refuse to serialise.",
+   text="For each of the 42 non-Output types the default module and every single deviation (every controller x boundary alphabet, every enum member, unit-dependent ranges under every unit, every option value, common fields at documented corners, MIDI bindings, every array element spike and fill pattern) goes through Synth write/read, Module.clone() and Project write/read; snapshots must be equal per context and across contexts; every pair of a reduced boundary menu (each controller at min/max, each option at its extremes, unit extremes, compound MetaModule/MultiCtl deviations; 56 k pairs) is round-tripped too; thorough adds every compatible pair of the full menu (~1 M). Also: save -> in-place edit -> save for every in-place operation (on built and on loaded modules), a save failing at every write index / abandoned after every chunk must not affect the next save, and the written bytes must not depend on the order in which objects were handled (three fresh interpreters). Synth(None) must refuse to serialise.",
    note="Trusted: rvmc.snapshot; N8 (placement/links not in sunsynth files). Exhaustive inside the stated deviation bound and alphabets only."),
  "C09": dict(level="exploration", ref="DESIGN.md §5 C09",
    technique="complete boundary enumeration of (controller, mode, assignment sequence of length <= 2)",
